@@ -182,7 +182,11 @@ CLAIMED = {
              "returns the state at exception exit, proved equal to the other one on every input: rawT_*_agrees). The TREE-FREE executor "
              "(root hash + database, no tree) on any partial database returns exactly the tree-carrying executor's exit state, root "
              "and exception (Free.op_partial); when it raises MissingTrieNode the store and counts are untouched, no pending mark is "
-             "left, and the named hash is absent and on the path / the root / the normalisation sibling (Free.op_missing_atomic). Tie: result or every exception field, state after the "
+             "left, and the named hash is absent and on the path / the root / the normalisation sibling (Free.op_missing_atomic). Partial "
+             "consistency (whatever is stored under a node's hash is its encoding) is an INVARIANT: true of complete databases, kept "
+             "by withholding and by supplying node bodies and by every set/delete, returning or raising, pruning on or off "
+             "(Free.partial_of_complete_db, partial_kept_by_withholding, partial_kept_by_supplying, partial_kept_by_op; two first "
+             "statements machine-refuted, counterexamples kept) - so the two executors stay equal along whole histories with withheld nodes. Tie: result or every exception field, state after the "
              "failure, retry loop run to convergence, inside and outside squash_changes; the raw-level set/delete, get and traverse "
              "are run on the same incomplete databases (reported node, consumed nibbles, result), and so is the tree-free executor on its "
              "own copy of the damaged database (outcome, root, full database, counts after every attempt of the retry loop).",
